@@ -52,15 +52,21 @@ def work(item):
     coef_re = [[float(0)] * n for _ in range(n)]
     iiT = T.bvvar('ii', 32)
     results = {}
-    for which in range(5):
+    junkT = T.var('junk')
+    for which, hist in [(w, hh) for w in range(5) for hh in (0, 1)]:
         nm = NAMES[which]
-        ps = h.run('h_factory', [I(which), I(d), I(iiT), Buf('o', n=n)])
+        ps = h.run('h_factory', [I(which), I(d), I(iiT), Buf('o', n=n), I(hist), D(junkT)])
         exstats.append(h.last_ex.stats)
-        results[which] = ps
+        if hist == 0:
+            results[which] = ps
         good = True
+        hs = ' after a vector of the same dimension (all components = junk, symbolic) was destroyed' if hist else ''
         for p in ps:
             if p.status != 'ok' or p.ret not in (0, 1):
-                out['candidates'].append({'key': '%s:d=%d:error' % (nm, d), 'what': '%s(%d, i) ends in %s %r' % (nm, d, p.status, p.info), 'kind': 'error', 'd': d, 'which': which})
+                if (p.info or {}).get('kind') == 'uninit':
+                    out['candidates'].append({'key': '%s:d=%d:value' % (nm, d), 'what': '%s(%d, i) returns components it never wrote (uninitialised storage)%s' % (nm, d, hs), 'kind': 'value', 'd': d, 'which': which, 'index': 0, 'hist': 1})
+                else:
+                    out['candidates'].append({'key': '%s:d=%d:error' % (nm, d), 'what': '%s(%d, i) ends in %s %r%s' % (nm, d, p.status, p.info, hs), 'kind': 'error', 'd': d, 'which': which, 'hist': hist})
                 good = False
                 continue
             conv = S.Conv('real')
@@ -69,7 +75,7 @@ def work(item):
                 r, m, _ = solver.check(p.pc, conv=conv, extra=[admissible(which, d, ii)], label='%s d=%d: exception only for inadmissible index' % (nm, d), want_model=True)
                 if r == 'sat':
                     k = m.eval(ii, model_completion=True).as_long()
-                    out['candidates'].append({'key': '%s:d=%d:throws' % (nm, d), 'what': '%s(%d,%d) throws for an admissible index' % (nm, d, k), 'kind': 'throws', 'd': d, 'which': which, 'index': k})
+                    out['candidates'].append({'key': '%s:d=%d:throws' % (nm, d), 'what': '%s(%d,%d) throws for an admissible index%s' % (nm, d, k, hs), 'kind': 'throws', 'd': d, 'which': which, 'index': k, 'hist': hist})
                     good = False
                 elif r != 'unsat':
                     out['undecided'].append('%s d=%d throw path' % (nm, d))
@@ -79,11 +85,11 @@ def work(item):
             r, m, _ = solver.check(p.pc, conv=conv, extra=[z3.Not(admissible(which, d, ii))], label='%s d=%d: inadmissible index is rejected' % (nm, d), want_model=True)
             if r == 'sat':
                 k = m.eval(ii, model_completion=True).as_long()
-                out['candidates'].append({'key': '%s:d=%d:accepts' % (nm, d), 'what': '%s(%d,%d) accepts an out-of-range index' % (nm, d, k), 'kind': 'accepts', 'd': d, 'which': which, 'index': k})
+                out['candidates'].append({'key': '%s:d=%d:accepts' % (nm, d), 'what': '%s(%d,%d) accepts an out-of-range index%s' % (nm, d, k, hs), 'kind': 'accepts', 'd': d, 'which': which, 'index': k, 'hist': hist})
                 good = False
             o = p.out('o')
             if any(v is None for v in o):
-                out['candidates'].append({'key': '%s:d=%d:unwritten' % (nm, d), 'what': '%s leaves components unwritten' % nm, 'kind': 'value', 'd': d, 'which': which, 'index': 0})
+                out['candidates'].append({'key': '%s:d=%d:unwritten' % (nm, d), 'what': '%s leaves components unwritten%s' % (nm, hs), 'kind': 'value', 'd': d, 'which': which, 'index': 0, 'hist': 1})
                 good = False
                 continue
             zo = [conv.conv(v) if isinstance(v, Term) else conv.rconst(v) for v in o]
@@ -105,13 +111,13 @@ def work(item):
             r, m, _ = solver.check(p.pc, conv=conv, extra=[z3.Or(viol)], label='%s d=%d: represented matrix equals the documented 0/1 diagonal for every index (symbolic index)' % (nm, d), want_model=True)
             if r == 'sat':
                 k = m.eval(ii, model_completion=True).as_long()
-                out['candidates'].append({'key': '%s:d=%d:value' % (nm, d), 'what': '%s(%d,%d) does not represent the documented matrix' % (nm, d, k), 'kind': 'value', 'd': d, 'which': which, 'index': k})
+                out['candidates'].append({'key': '%s:d=%d:value' % (nm, d), 'what': '%s(%d,%d) does not represent the documented matrix%s' % (nm, d, k, hs), 'kind': 'value', 'd': d, 'which': which, 'index': k, 'hist': hist})
                 good = False
             elif r != 'unsat':
                 out['undecided'].append('%s d=%d value query' % (nm, d))
                 good = False
         if good:
-            dec.holds('%s(d=%d, i) for every unsigned i: value and admissibility (%d paths)' % (nm, d, len(ps)))
+            dec.holds('%s(d=%d, i) for every unsigned i%s: value and admissibility (%d paths)' % (nm, d, hs, len(ps)))
     # sensitivity witness: the Projector query with the spec shifted by one must be sat
     p0 = [p for p in results[0] if p.status == 'ok' and p.ret == 0]
     if p0:
@@ -128,14 +134,17 @@ def work(item):
             out['broken'].append('sensitivity witness d=%d' % d)
     # derived algebra: PosProjector(d,k) + NegProjector(d,d-k) = Identity for 0<k<d (two executions sharing k)
     kT = T.bvvar('k', 32)
-    pa = h.run('h_factory', [I(2), I(d), I(kT), Buf('o', n=n)])
+    pa = h.run('h_factory', [I(2), I(d), I(kT), Buf('o', n=n), I(0), D(0.0)])
     exstats.append(h.last_ex.stats)
-    pb = h.run('h_factory', [I(3), I(d), I(T.bvop('sub', d, kT, 32)), Buf('o', n=n)])
+    pb = h.run('h_factory', [I(3), I(d), I(T.bvop('sub', d, kT, 32)), Buf('o', n=n), I(0), D(0.0)])
     exstats.append(h.last_ex.stats)
-    pi_ = [p for p in results[1] if p.ret == 0]
-    okd = True
-    for A in pa:
+    pi_ = [p for p in results[1] if p.status == 'ok' and p.ret == 0]
+    okd = bool(pi_)
+    for A in (pa if pi_ else []):
         for B in pb:
+            if A.status != 'ok' or B.status != 'ok':
+                okd = False          # already reported above as a candidate of the factory concerned
+                continue
             conv = S.Conv('real')
             kk = conv.conv(kT)
             rng = [z3.UGT(kk, 0), z3.ULT(kk, d)]
@@ -190,8 +199,8 @@ def replay(chk, h, c):
     kind = c['kind']
     if kind == 'posneg':
         for k in ([c['index']] if 'index' in c else range(1, d)):
-            ra, oa = h.native('h_factory', [I(2), I(d), I(k), Buf('o', n=n)])
-            rb, ob = h.native('h_factory', [I(3), I(d), I(d - k), Buf('o', n=n)])
+            ra, oa = h.native('h_factory', [I(2), I(d), I(k), Buf('o', n=n), I(0), D(0.0)])
+            rb, ob = h.native('h_factory', [I(3), I(d), I(d - k), Buf('o', n=n), I(0), D(0.0)])
             if ra or rb:
                 return True, 1.0
             M = native_matrix(h, d, np.array(oa['o']) + np.array(ob['o']))
@@ -201,7 +210,7 @@ def replay(chk, h, c):
         return False, 0.0
     which = c['which']
     k = c.get('index', 0)
-    ret, o = h.native('h_factory', [I(which), I(d), I(k), Buf('o', [np.nan] * n)])
+    ret, o = h.native('h_factory', [I(which), I(d), I(k), Buf('o', [np.nan] * n), I(c.get('hist', 0)), D(7.5)])
     adm = (k < d * d) if which == 4 else (True if which == 1 else k < d)
     if kind == 'throws':
         return (ret == 1 and adm), 1.0
@@ -227,7 +236,7 @@ def main(tier):
     chk.cov['bounds'] = {'dimensions': dims, 'index': 'one unconstrained 32-bit symbolic index per call (all 2^32 values, admissible and not)', 'tolerance': '1e-13 per matrix entry'}
     chk.cov['exhaustive'] = True
     chk.cov['domains'] = ['bit-vectors for the index, exact reals for the components']
-    chk.cov['stubs'] = ['GSL accessors: harness/gsl_shim.c', 'operator new[]: fresh 32-byte aligned block', 'block cache starts empty']
+    chk.cov['stubs'] = ['GSL accessors: harness/gsl_shim.c', 'operator new[]: fresh 32-byte aligned block', 'block cache: empty, or holding the block of a destroyed vector of the same dimension whose components are one symbolic value']
     chk.assumptions = ['clang-14 -O1 IR is the semantics of the source (interpreter-vs-native diff on every admissible index, every run)',
                        'dimension 2..6 (other dimensions belong to C14)']
     h = Harness(CPP, LIBS)
@@ -237,7 +246,7 @@ def main(tier):
             for k in range(d * d + 1 if which == 4 else d + 1):
                 if which == 1 and k > 0:
                     continue
-                cases.append(('h_factory', [I(which), I(d), I(k), Buf('o', n=d * d)], ['o']))
+                cases.append(('h_factory', [I(which), I(d), I(k), Buf('o', n=d * d), I((which + k + d) % 2), D(7.5)], ['o']))
     if tier == 'quick':
         chk.rng.shuffle(cases)
         cases = cases[:40]
